@@ -2,6 +2,7 @@
 from rules import misc as M
 from rules import payload as O
 from rules import paths as PT
+from rules import tables as T
 
 
 def run(ctx):
@@ -15,6 +16,7 @@ def run(ctx):
     ctx.run(M.nul5_builder_bitmap_written_bitwise)
     ctx.run(PT.flw11_digest_when_modified)
     ctx.run(O.who6_column_handles_are_never_removed)
+    ctx.run(T.tbl26_reader_passes_stored_scalars_unchanged)
     return ctx.finish(
         'Static rules on the compaction path, which re-encodes every column through a second decode '
         'routine the query path never uses: that routine handles every codec op and every '
